@@ -357,6 +357,46 @@ def check_others(res, tier):
                 res.case(nontrivial=len(expected) > 0, outcome=("chain", ls))
                 if not ok:
                     res.violation(case, observed, repr(expected), {"law": "chain"})
+    # Chain is as lazy as itertools.chain: iter() of an iterable and each of its values are demanded in
+    # the same order relative to what the consumer has taken (every prefix length of every tuple)
+    class _Traced(object):
+        def __init__(self, name, n, log):
+            self.name, self.n, self.log = name, n, log
+
+        def __iter__(self):
+            self.log.append(("iter", self.name))      # logged when iter() is called, not at the first next()
+            return self._values()
+
+        def _values(self):
+            for i in range(self.n):
+                self.log.append(("make", self.name, i))
+                yield ("c", self.name, i)
+            self.log.append(("end", self.name))
+
+    def _trace(make_chain, ls, take):
+        log = []
+        try:
+            it = iter(make_chain([_Traced(a, l, log) for a, l in enumerate(ls)]))
+            log.append(("chained",))
+            for _ in range(take):
+                try:
+                    v = next(it)
+                except StopIteration:
+                    log.append(("stop",))
+                    break
+                log.append(("got", v[1], v[2]))
+        except Exception as e:
+            log.append(("raised", type(e).__name__))
+        return log
+    for k in range(0, 4):
+        for ls in itertools.product(lens, repeat=k):
+            for take in range(0, sum(ls) + 2):
+                case = {"law": "chain-lazy", "lengths": list(ls), "take": take}
+                expected = _trace(lambda a: itertools.chain(*a), ls, take)
+                got = _trace(lambda a: lena.flow.Chain(*a)(), ls, take)
+                res.case(nontrivial=k >= 2 and take >= 1, outcome=("chain-lazy", ls, take))
+                if got != expected:
+                    res.violation(case, got, expected, {"law": "chain-lazy"})
     # CountFrom
     for start in (-2, 0, 1, 2.5):
         for step in (1, 2, -1, 0.5, 0):
